@@ -2973,6 +2973,132 @@ def check_side_tables(ck, cm: CacheModel, R):
 
 
 
+STORAGE_MODULES = ("storage_base", "storage_filesystem", "storage_memory", "storage")
+_ONE_PASS_TYPES = ("Iterable", "Iterator", "Generator", "AsyncIterable", "AsyncIterator")
+_NOT_CONSUMING = ("isinstance", "len", "id", "type", "bool", "hasattr", "callable", "repr", "cast")
+
+
+def _only_iterable(annotation) -> bool:
+    """the annotation promises no more than "can be iterated": Iterable[..] / Iterator[..] / Generator[..], bare or
+    qualified, possibly Optional"""
+    t = (annotation or "").replace(" ", "")
+    while t.startswith("Optional[") or t.startswith("typing.Optional["):
+        t = t[t.index("[") + 1:-1]
+    head = t.split("[")[0].split(".")[-1]
+    return head in _ONE_PASS_TYPES
+
+
+def check_iterable_single_pass(ck, R):
+    """A parameter of the storage layer that is only promised to be iterable (annotated Iterable / Iterator / Generator) may
+    be a generator: it can be gone through ONCE.  A second consuming use that is reachable from a first one sees an empty
+    sequence -- is_all_memoized then asks the store about no call at all and answers True.  A consuming use is: the
+    iterable of a for loop / comprehension, an argument of a call (other than isinstance / len / ...), an operand of `in`,
+    `yield from`, unpacking, or handing it out (return / yield).  `p = list(p)` (or tuple / sorted, under the same or
+    another name) re-binds: uses of the materialised sequence do not count.  A plain alias `q = p` is followed."""
+    ck.rule(R, "a parameter of the storage layer that is only promised to be Iterable is gone through at most once on every path "
+               "(or materialised first)", 1)
+    seen = 0
+    for mod in STORAGE_MODULES:
+        try:
+            module = ck.repo.module(mod)
+        except (AnalysisError, KeyError):
+            continue
+        for fi in module.all_funcs():
+            ps = [p_ for p_ in fi.params if _only_iterable(fi.param_annotation(p_))]
+            if not ps or fi.node is None:
+                continue
+            fa = FA(ck, fi)
+            for p_ in ps:
+                seen += 1
+                bad = _second_pass(fa, p_)
+                ok = bad is None
+                ck.ob(R, fa.key(None, "single-pass:" + p_), ok,
+                      "`%s` (only promised to be iterable) is gone through at most once on every path" % p_ if ok else
+                      "`%s` is annotated %s, so it may be a generator, yet `%s` goes through it again after `%s` did: the second pass sees nothing "
+                      "(a query over the calls then asks about no call at all and answers as if all were memoized) -- materialise it first "
+                      "(`%s = list(%s)`)" % (p_, fi.param_annotation(p_), A.short(bad[1], 50), A.short(bad[0], 50), p_, p_),
+                      fa.where(bad[1] if bad is not None else None))
+    ck.need(seen >= 1, "no Iterable-annotated parameter found in the storage layer (anchor lost)")
+
+
+def _second_pass(fa: FA, param):
+    """(statement of a first consuming use, statement of a later one reachable from it) or None"""
+    def raw(name_node, nid, depth=0) -> bool:
+        """may the name hold the parameter's own (un-materialised) iterable at CFG node nid?"""
+        for d in fa.df.reaching(nid, name_node.id):
+            if d.kind == "param" and d.name == param:
+                return True
+            if d.kind == "assign" and isinstance(d.value, ast.Name) and depth < 3 and d.node >= 0 and d.value.id != name_node.id and raw(d.value, d.node, depth + 1):
+                return True
+        return False
+
+    uses = []       # (name node, CFG ids, repeated?, loop whose iterable it is)
+    for n in A.walk_body(fa.node):
+        if not (isinstance(n, ast.Name) and isinstance(n.ctx, ast.Load)):
+            continue
+        ids = fa.nodes(n)
+        if not ids or not any(raw(n, i) for i in ids):
+            continue
+        par = fa.pm.get(n)
+        if isinstance(par, ast.Starred):
+            par = fa.pm.get(par)
+        own_loop, consuming, repeated = None, False, False
+        if isinstance(par, (ast.For, ast.AsyncFor)) and par.iter is n:
+            consuming, own_loop = True, par
+        elif isinstance(par, ast.comprehension) and par.iter is n:
+            consuming = True
+        elif isinstance(par, ast.Call) and par.func is not n:
+            f = par.func
+            consuming = not (isinstance(f, ast.Name) and f.id in _NOT_CONSUMING)
+        elif isinstance(par, ast.keyword):
+            consuming = True
+        elif isinstance(par, ast.Compare) and n in par.comparators and any(isinstance(o, (ast.In, ast.NotIn)) for o in par.ops):
+            consuming = True
+        elif isinstance(par, (ast.YieldFrom, ast.Yield, ast.Return)):
+            consuming = True
+        elif isinstance(par, ast.Assign) and par.value is n and any(isinstance(t, (ast.Tuple, ast.List)) for t in par.targets):
+            consuming = True
+        if not consuming:
+            continue
+        # evaluated once per element of something else: not the first iterable of a comprehension, or inside a lambda
+        x = n
+        while x is not None and not isinstance(x, ast.stmt):
+            up = fa.pm.get(x)
+            if isinstance(up, ast.Lambda):
+                repeated = True
+            if isinstance(up, (ast.ListComp, ast.SetComp, ast.GeneratorExp, ast.DictComp)):
+                first = up.generators[0].iter
+                if not fa.inside(n, first):
+                    repeated = True
+            x = up
+        uses.append((n, ids, repeated, own_loop))
+    for (n, ids, repeated, own_loop) in uses:
+        if repeated:
+            return (fa.stmt_of(n) or n, fa.stmt_of(n) or n)
+    cfg = fa.cfg
+    for (n1, ids1, _r, loop1) in uses:
+        for i in ids1:
+            def edge_ok(s_, d_, l_, i=i, loop1=loop1):
+                # the iterable of a for loop is evaluated when the loop is entered, not per iteration
+                if loop1 is not None and d_ == i and s_ != i:
+                    a_ = cfg.node(s_).ast
+                    if s_ == i or (a_ is not None and a_ is not loop1 and fa.inside(a_, loop1)):
+                        return False
+                return True
+            r = cfg.reach([i], edge_ok=edge_ok, include_start=False)
+            for (n2, ids2, _r2, _l2) in uses:
+                if n2 is n1:
+                    if i in r:
+                        return (fa.stmt_of(n1) or n1, fa.stmt_of(n1) or n1)
+                    continue
+                if any(j in r or j == i for j in ids2):
+                    # two uses in one statement / a later use reachable from this one
+                    if all(j == i for j in ids2) and n2.lineno * 10000 + n2.col_offset < n1.lineno * 10000 + n1.col_offset:
+                        continue
+                    return (fa.stmt_of(n1) or n1, fa.stmt_of(n2) or n2)
+    return None
+
+
 def check(ck):
     from .memo import check_new_memo_tables
     ck.run(check_metadata_marker_reserved, ck, "C05.R4")
@@ -2992,4 +3118,5 @@ def check(ck):
     ck.run(check_queries_effect_free, ck, "C05.R3")
     ck.run(check_cache_coherence, ck, cm)
     ck.run(check_side_tables, ck, cm, "C05.R9")
+    ck.run(check_iterable_single_pass, ck, "C05.R10")
     ck.run(check_path_scheme, ck)
